@@ -9,6 +9,8 @@ from xknx.management.management import Management
 from xknx.telegram import IndividualAddress
 from xknx.telegram.apci import APCI, GroupValueWrite
 
+from xknx.secure.data_secure import DataSecure
+
 from ..dsecure import Receiver, secure_frame
 from ..runner import Ctx, Part, exc_sig, seed_bytes
 
@@ -52,10 +54,24 @@ def run_base(key: bytes, n: int, encrypt: bool, part: Part, pairs: str = "none",
     calls: list[Any] = []
     alg = "enc" if encrypt else "auth"
 
+    authenticated: list[Any] = []   # secured frames the Data Secure layer accepted (verified and handed on), whatever later layers do with them
+
     def feed(raw: bytes) -> tuple[list[Any], BaseException | None]:
         rx.ds._individual_address_table[IndividualAddress(SA)] = SEQ - 1  # noqa: SLF001  same freshness state for every variant
         calls.clear()
-        got, _issues, exc = rx.feed(raw)
+        authenticated.clear()
+        orig = DataSecure._received_secure_cemi  # noqa: SLF001
+
+        def spy(self: Any, cemi_data: Any, s_apdu: Any) -> Any:
+            out = orig(self, cemi_data, s_apdu)
+            authenticated.append(out)
+            return out
+
+        DataSecure._received_secure_cemi = spy  # type: ignore[method-assign]  # noqa: SLF001
+        try:
+            got, _issues, exc = rx.feed(raw)
+        finally:
+            DataSecure._received_secure_cemi = orig  # type: ignore[method-assign]  # noqa: SLF001
         return got + list(calls), exc
 
     def case(kind: str, **kw: Any) -> dict[str, Any]:
@@ -82,6 +98,9 @@ def run_base(key: bytes, n: int, encrypt: bool, part: Part, pairs: str = "none",
                 continue
             if cls == "protected":
                 part.nontrivial += 1
+                if authenticated and not got:
+                    # verified by the Data Secure layer although a protected bit differs (a later layer happened to drop the frame)
+                    part.viol(f"tampered-frame-authenticated:{alg}:{field}", f"{where}: the Data Secure layer verified and handed on the frame ({authenticated[0]!r}); frame {raw.hex()}", case("flip", pos=pos, bit=bit), rank=(n, pos, bit))
                 if got:
                     part.viol(f"tampered-frame-delivered:{alg}:{field}", f"{where}: delivered {got[0].payload}; frame {raw.hex()}", case("flip", pos=pos, bit=bit), rank=(n, pos, bit))
             elif cls == "unprotected":
